@@ -7,6 +7,10 @@
 2. spec -> impl: every ARC, scaled to 2-4 sizes and unscaled, is handed to the REAL
    lambertUniversal and lambertBattin (told the true sense); both returned velocities must equal
    the spec's to 1e-8 relative.
+   The minimum-energy arcs of the spec (between the mirror points (-2ae, +-p): r1 + r2 + chord = 4a,
+   time of flight exactly Lambert's t_min) are replayed at t_min (exact velocities) and at
+   t_min (1 +- 1e-12, 1e-9, 1e-6) (relation); seeded chords likewise.  A non-finite velocity is
+   never within tolerance.
 3. Seeded non-lattice arcs (e <= 0.7, transfer angle in (5, 175) u (185, 355) deg, time of flight
    below one period, both senses): RELATION only - propagating r1 with the returned v1 for the
    time of flight with the repository's own Kepler solver arrives at r2 with the returned v2.
@@ -15,6 +19,12 @@
 5. LambertIOD.determineNewEstimateState through a REAL (in-memory) output database holding the
    earlier radar observation, for lattice circular orbits (90 deg arcs) and seeded near-circular
    orbits less than 40 % of a period apart, must return the orbit's state at the second epoch.
+6. OrbitLatticeTrack.tla enumerates TRACKS: every time-ordered sequence of up to 4 (thorough 5)
+   stored observations of kinds arc / before-detection / other-target / optical.  Each is stored
+   as REAL rows and determineNewEstimateState is called with the current radar observation: with
+   an eligible stored observation the result must be the orbit's state at the current observation
+   whatever their number (chord and transit time from the same one - SameArc), else no solution.
+   Spec mutant Pairing = "mixed" must be refuted by TLC.
 """
 from __future__ import annotations
 
@@ -30,6 +40,11 @@ from . import _orbits as O
 LEVEL = "model_checking"
 
 TOL_LATTICE = 1e-8       # relative, both velocities (the statement's figure; worst measured 7.7e-9)
+TOL_TMIN_BATTIN = 5e-7   # Battin exactly at the minimum-energy time of flight: alpha = 2 asin sqrt(s/2a) sits at pi where
+                         # asin(sqrt(.)) resolves only sqrt(eps); worst measured 9.7e-8 (after the clamp; NaN before it)
+TOL_TMIN_V1 = 3e-6       # relation at / next to t_min: admissible relative error of the returned v1 (worst implied by 36000
+                         # seeded chords: 6e-7, Battin; universal stays below 1e-8 there)
+TMIN_FACTORS = (1e-12, -1e-12, 1e-9, -1e-9, 1e-6, -1e-6)
 TOL_ARC_TIGHT = 1e-8     # seeded arcs: propagated end point accepted outright below this (relative)
 TOL_ARC_V1 = 5e-7        # otherwise: admissible relative error of the returned v1 (Battin iterates to 1.48e-8 in its
                          # own variable x; 9e-8 in v1 is the worst seen), propagated to the end point to first order
@@ -70,6 +85,7 @@ class Impl:
         self.JulianDate, self.ScenarioTime, self.dt2jd = JulianDate, ScenarioTime, datetimeToJulianDate
         self.meas = Measurement.fromMeasurementLabels(
             ["azimuth_rad", "elevation_rad", "range_km", "range_rate_km_p_sec"], np.eye(4))
+        self.meas_optical = Measurement.fromMeasurementLabels(["azimuth_rad", "elevation_rad"], np.eye(2))
 
 
 def _vrel(a, b):
@@ -88,11 +104,11 @@ def replay_arcs(ctx: Ctx, sink: Sink, I: Impl, arcs: list):
             tof = O.triple(arc["tof"], ecc) * S.time_unit
             if not 0.0 < tof < S.period:
                 raise O.tlc.MachineryError(f"lattice arc with time of flight {tof} outside (0, period {S.period})")
-            rp = {"family": arc["fam"], "rot": arc["rot"], "q": arc["q"], "dq": arc["dq"], "a_km": a_km, "mu": S.mu,
+            rp = {"family": arc["fam"], "rot": arc["rot"], "q": arc["q"], "kind": arc["kind"], "a_km": a_km, "mu": S.mu,
                   "r1": r1.tolist(), "r2": r2.tolist(), "tof": tof, "transfer_method": arc["tm"],
                   "v1_exact": v1.tolist(), "v2_exact": v2.tolist()}
             n += 1
-            key = (arc["fam"], str(arc["rot"]), arc["q"], arc["dq"], a_km)
+            key = (arc["fam"], str(arc["rot"]), arc["q"], arc["kind"], a_km)
             ctx.case(key, nontrivial=True, sample=rp if n in (1, 1000) else None)
             for name, solver in I.solvers.items():
                 way = "short" if arc["tm"] == 1 else "long"
@@ -102,39 +118,103 @@ def replay_arcs(ctx: Ctx, sink: Sink, I: Impl, arcs: list):
                     sink.fail(f"lambert-{name}-lattice-exception-{way}", f"{name} raised {ex!r} on a lattice arc (e = {ecc}, {way} way)", rp)
                     continue
                 err = max(_vrel(va, v1), _vrel(vb, v2))
-                if not err <= TOL_LATTICE:
-                    sink.fail(f"lambert-{name}-lattice-velocity-{way}",
+                me = arc["minenergy"]
+                tol = TOL_TMIN_BATTIN if (me and name == "battin") else TOL_LATTICE
+                what = "minimum-energy arc, tof = t_min" if me else f"{90 * arc['dq']} deg"
+                if not (np.all(np.isfinite(va)) and np.all(np.isfinite(vb))):
+                    sink.fail(f"lambert-{name}-nonfinite-velocity" + ("-at-tmin" if me else ""),
+                              f"{name} returned a non-finite velocity {np.asarray(va).tolist()} on a lattice arc (family {arc['fam']}, {what}, {way} way)", rp)
+                elif not err <= tol:
+                    sink.fail(f"lambert-{name}-lattice-velocity-{way}" + ("-at-tmin" if me else ""),
                               f"{name}: end-point velocities differ from the exact ones by {err:.3g} relative "
-                              f"(family {arc['fam']}, {90 * arc['dq']} deg, {way} way)",
+                              f"(family {arc['fam']}, {what}, {way} way)",
                               dict(rp, v1=np.asarray(va).tolist(), v2=np.asarray(vb).tolist()))
                 else:
-                    worst[name] = max(worst[name], err)
+                    wk = name + ("_at_tmin" if me else "")
+                    worst[wk] = max(worst.get(wk, 0.0), err)
     ctx.traces_validated += n
     ctx.extra["lattice_arcs_replayed"] = n
     ctx.extra["worst_lattice_velocity_error"] = worst
 
 
 # ------------------------------------------------------------------------ seeded generic arcs
-def _sensitivity(I: Impl, start: np.ndarray, tof: float):
+def _sensitivity(I: Impl, start: np.ndarray, tof: float, mu: float):
     """2-norms of d(end position)/d(v1) [s] and d(end velocity)/d(v1) [-] by central differences."""
-    h = 1e-5
+    h = 1e-6 * float(np.linalg.norm(start[3:]))
     cols = []
     for j in range(3):
         d = np.zeros(6)
         d[3 + j] = h
         try:
-            hi, lo = I.kepler.solveKeplerProblemUniversal(start + d, tof), I.kepler.solveKeplerProblemUniversal(start - d, tof)
+            hi = I.kepler.solveKeplerProblemUniversal(start + d, tof, mu=mu)
+            lo = I.kepler.solveKeplerProblemUniversal(start - d, tof, mu=mu)
         except Exception:  # noqa: BLE001
-            hi, lo = O.propagate_elliptic(start + d, tof, I.mu), O.propagate_elliptic(start - d, tof, I.mu)
+            hi, lo = O.propagate_elliptic(start + d, tof, mu), O.propagate_elliptic(start - d, tof, mu)
         cols.append((hi - lo) / (2 * h))
     phi = np.array(cols).T
     return float(np.linalg.norm(phi[:3], 2)), float(np.linalg.norm(phi[3:], 2))
 
 
+def _new_stats(I: Impl) -> dict:
+    return {"worst": {k: [0.0, 0.0] for k in I.solvers}, "fallbacks": 0, "amplified": 0}
+
+
+def _propagate(I: Impl, start, tof, mu, stats):
+    try:
+        return I.kepler.solveKeplerProblemUniversal(start, tof, mu=mu)
+    except Exception:  # noqa: BLE001 - the repository's propagator gave up: not this property's concern
+        stats["fallbacks"] += 1
+        if float(start[3:] @ start[3:]) >= 2 * mu / np.linalg.norm(start[:3]):
+            return None
+        return O.propagate_elliptic(start, tof, mu)
+
+
+def _arc_relation(sink: Sink, I: Impl, r1, r2, tof, tm, mu, rp, what: str, tag: str, stats: dict, tol_v1: float = 0.0):
+    """THE RELATION of C20: propagating r1 with the returned v1 for the time of flight (repository's
+    own Kepler solver) arrives at r2 with the returned v2.  A non-finite velocity never passes."""
+    way = "short" if tm == 1 else "long"
+    for name, solver in I.solvers.items():
+        try:
+            va, vb = solver(r1, r2, tof, tm, mu=mu)
+        except Exception as ex:  # noqa: BLE001
+            sink.fail(f"lambert-{name}-exception-{way}{tag}", f"{name} raised {ex!r} on a valid arc {what}", rp)
+            continue
+        va, vb = np.asarray(va, float), np.asarray(vb, float)
+        if not (np.all(np.isfinite(va)) and np.all(np.isfinite(vb))):
+            sink.fail(f"lambert-{name}-nonfinite-velocity{tag}", f"{name} returned a non-finite velocity {va.tolist()} {what}", rp)
+            continue
+        start = np.concatenate([r1, va])
+        end = _propagate(I, start, tof, mu, stats)
+        if end is None or not np.all(np.isfinite(end)):
+            sink.fail(f"lambert-{name}-arc-not-reproduced-{way}{tag}", f"{name}: returned initial velocity is not a bound orbit / not finite {what}", dict(rp, v1=va.tolist()))
+            continue
+        ep = float(np.linalg.norm(end[:3] - r2) / np.linalg.norm(r2))
+        ev = _vrel(end[3:], vb)
+        tol_p = tol_v = TOL_ARC_TIGHT
+        bounded = ep > tol_p or ev > tol_v
+        if bounded:
+            # near a full revolution of an eccentric orbit the end point amplifies an error of v1
+            # by orders of magnitude: bound by the first-order sensitivity (finite differences
+            # through the same propagator)
+            amp_r, amp_v = _sensitivity(I, start, tof, mu)
+            rel = tol_v1 or TOL_ARC_V1
+            dv1 = rel * float(np.linalg.norm(va))
+            tol_p += amp_r * dv1 / float(np.linalg.norm(r2))
+            tol_v += (amp_v * dv1) / float(np.linalg.norm(vb)) + rel
+            stats["amplified"] += 1
+        if ep > tol_p or ev > tol_v:
+            sink.fail(f"lambert-{name}-arc-not-reproduced-{way}{tag}",
+                      f"{name}: propagating r1 with the returned v1 for the time of flight misses r2 by {ep:.3g} |r2| "
+                      f"and the returned v2 by {ev:.3g} (allowed {tol_p:.3g}, {tol_v:.3g}) {what}",
+                      dict(rp, v1=va.tolist(), v2=vb.tolist(), propagated=end.tolist()))
+        elif bounded:
+            w = stats["worst"][name]
+            w[0], w[1] = max(w[0], ep / tol_p), max(w[1], ev / tol_v)
+
+
 def seeded_arcs(ctx: Ctx, sink: Sink, I: Impl, rng: random.Random):
     n_arc = 1200 if ctx.quick else 30000
-    worst = {k: [0.0, 0.0] for k in I.solvers}
-    fallbacks = amplified = 0
+    stats = _new_stats(I)
     for k in range(n_arc):
         sma = rng.uniform(6600.0, 50000.0)
         ecc = rng.choice((rng.uniform(0.0, 0.7), rng.uniform(0.0, 0.7), 0.7, 10 ** rng.uniform(-6, -2)))
@@ -154,48 +234,79 @@ def seeded_arcs(ctx: Ctx, sink: Sink, I: Impl, rng: random.Random):
               "r1": x1[:3].tolist(), "r2": x2[:3].tolist(), "tof": tof, "transfer_method": tm}
         ctx.case(("arc", round(sma, 6), round(ecc, 12), round(inc, 12), round(raan, 9), round(argp, 9), round(nu1, 9), round(dnu, 9)),
                  nontrivial=True, sample=rp if k == 0 else None)
-        for name, solver in I.solvers.items():
-            try:
-                va, vb = solver(x1[:3], x2[:3], tof, tm)
-            except Exception as ex:  # noqa: BLE001
-                sink.fail(f"lambert-{name}-exception-{way}", f"{name} raised {ex!r} on a valid arc (e = {ecc:.4f}, "
-                          f"transfer {math.degrees(dnu):.2f} deg, tof/period = {tof / period:.4f})", rp)
-                continue
-            start = np.concatenate([x1[:3], va])
-            try:
-                end = I.kepler.solveKeplerProblemUniversal(start, tof)
-            except Exception:  # noqa: BLE001 - the repository's propagator gave up: not this property's concern
-                fallbacks += 1
-                end = O.propagate_elliptic(start, tof, I.mu) if float(va @ va) < 2 * I.mu / np.linalg.norm(x1[:3]) else None
-            if end is None or not np.all(np.isfinite(end)):
-                sink.fail(f"lambert-{name}-arc-not-reproduced-{way}", f"{name}: returned initial velocity is not a bound orbit / not finite", dict(rp, v1=np.asarray(va).tolist()))
-                continue
-            ep = float(np.linalg.norm(end[:3] - x2[:3]) / np.linalg.norm(x2[:3]))
-            ev = _vrel(end[3:], np.asarray(vb))
-            tol_p = tol_v = TOL_ARC_TIGHT
-            bounded = ep > tol_p or ev > tol_v
-            if bounded:
-                # near a full revolution of an eccentric orbit the end point amplifies an error of v1
-                # by orders of magnitude: bound by the first-order sensitivity (finite differences
-                # through the same propagator)
-                amp_r, amp_v = _sensitivity(I, start, tof)
-                dv1 = TOL_ARC_V1 * float(np.linalg.norm(va))
-                tol_p += amp_r * dv1 / float(np.linalg.norm(x2[:3]))
-                tol_v += (amp_v * dv1) / float(np.linalg.norm(vb)) + TOL_ARC_V1
-                amplified += 1
-            if ep > tol_p or ev > tol_v:
-                sink.fail(f"lambert-{name}-arc-not-reproduced-{way}",
-                          f"{name}: propagating r1 with the returned v1 for the time of flight misses r2 by {ep:.3g} |r2| "
-                          f"and the returned v2 by {ev:.3g} (allowed {tol_p:.3g}, {tol_v:.3g}; e = {ecc:.4f}, transfer {math.degrees(dnu):.2f} deg, tof/period = {tof / period:.4f})",
-                          dict(rp, v1=np.asarray(va).tolist(), v2=np.asarray(vb).tolist(), propagated=end.tolist()))
-            elif bounded:
-                worst[name][0] = max(worst[name][0], ep / tol_p)
-                worst[name][1] = max(worst[name][1], ev / tol_v)
+        _arc_relation(sink, I, x1[:3], x2[:3], tof, tm, I.mu, rp,
+                            f"(e = {ecc:.4f}, transfer {math.degrees(dnu):.2f} deg, tof/period = {tof / period:.4f})", "", stats)
     ctx.traces_validated += n_arc
     ctx.extra["seeded_arcs"] = n_arc
-    ctx.extra["worst_error_over_allowed_among_sensitivity_bounded_arcs_pos_vel"] = worst
-    ctx.extra["repo_kepler_solver_failures_replaced_by_fallback"] = fallbacks
-    ctx.extra["seeded_arcs_judged_with_sensitivity_bound"] = amplified
+    ctx.extra["worst_error_over_allowed_among_sensitivity_bounded_arcs_pos_vel"] = stats["worst"]
+    ctx.extra["repo_kepler_solver_failures_replaced_by_fallback"] = stats["fallbacks"]
+    ctx.extra["seeded_arcs_judged_with_sensitivity_bound"] = stats["amplified"]
+
+
+
+# ------------------------------------------------ the neighbourhood of the minimum-energy time
+def _tmin_of_chord(r1, r2, tm, mu):
+    """Lambert's minimum-energy time of flight of a chord (Battin / Vallado algorithm 59) - used to
+    CHOOSE the time of flight of a seeded chord; the relation judges the answer."""
+    r1m, r2m = float(np.linalg.norm(r1)), float(np.linalg.norm(r2))
+    c = float(np.linalg.norm(r2 - r1))
+    s = 0.5 * (r1m + r2m + c)
+    beta = 2.0 * math.asin(math.sqrt((s - c) / s)) * (1.0 if tm == 1 else -1.0)
+    cos_dnu = float(r1 @ r2) / (r1m * r2m)
+    p_min = r1m * r2m * (1.0 - cos_dnu) / c
+    ecc_min = math.sqrt(max(0.0, 1.0 - 2.0 * p_min / s))
+    return math.sqrt((0.5 * s) ** 3 / mu) * (math.pi - beta + math.sin(beta)), ecc_min
+
+
+def tmin_neighbourhood(ctx: Ctx, sink: Sink, I: Impl, arcs: list, rng: random.Random):
+    """Times of flight t_min (1 + f), f in TMIN_FACTORS, on the specification's minimum-energy arcs
+    (t_min exact) and on seeded chords (t_min from the chord geometry): relation only."""
+    stats = _new_stats(I)
+    n = 0
+    me = [a for a in arcs if a["minenergy"]]
+    sizes = (26560.0,) if ctx.quick else (None, 17100.0, 26560.0, 42164.0, 49999.9)
+    for arc in me:
+        ecc = O.qf(arc["e"])
+        for a_km in sizes:
+            S = O.Scaled(arc, a_km, I.mu)
+            r1, r2 = S.pos(arc["r1"]), S.pos(arc["r2"])
+            t_min = O.triple(arc["tof"], ecc) * S.time_unit
+            for f in TMIN_FACTORS:
+                n += 1
+                rp = {"family": arc["fam"], "rot": arc["rot"], "kind": arc["kind"], "a_km": a_km, "mu": S.mu, "r1": r1.tolist(),
+                      "r2": r2.tolist(), "t_min": t_min, "factor": f, "tof": t_min * (1.0 + f), "transfer_method": arc["tm"]}
+                ctx.case(("tmin", arc["fam"], str(arc["rot"]), arc["kind"], a_km, f), nontrivial=True, sample=rp if n == 1 else None)
+                _arc_relation(sink, I, r1, r2, t_min * (1.0 + f), arc["tm"], S.mu, rp,
+                              f"(lattice minimum-energy chord, family {arc['fam']}, tof = t_min (1 {f:+.0e}))", "-near-tmin", stats, TOL_TMIN_V1)
+    n_chord = 150 if ctx.quick else 4000
+    k = 0
+    while k < n_chord:
+        r1m, r2m = rng.uniform(6700.0, 45000.0), rng.uniform(6700.0, 45000.0)
+        dnu = math.radians(rng.choice((rng.uniform(10.0, 170.0), rng.uniform(190.0, 350.0), 120.0, 229.5)))
+        tm = 1 if dnu < math.pi else -1
+        m = O.rot3a(rng.uniform(0, O.TWOPI)) @ O.rot1a(math.acos(rng.uniform(-1, 1))) @ O.rot3a(rng.uniform(0, O.TWOPI))
+        if k % 10 == 0:            # the reported geometry: equal radii 10000 km, 120 deg, in the xy-plane
+            r1m = r2m = 10000.0
+            dnu, tm, m = math.radians(120.0), 1, np.eye(3)
+        r1 = m @ np.array([r1m, 0.0, 0.0])
+        r2 = m @ np.array([r2m * math.cos(dnu), r2m * math.sin(dnu), 0.0])
+        t_min, ecc_min = _tmin_of_chord(r1, r2, tm, I.mu)
+        if ecc_min > 0.7:          # outside the quantifier of the property
+            if k % 10 == 0:
+                k += 1
+            continue
+        k += 1
+        for f in (0.0, *TMIN_FACTORS):
+            n += 1
+            rp = {"r1": r1.tolist(), "r2": r2.tolist(), "dnu_deg": math.degrees(dnu), "t_min": t_min, "factor": f,
+                  "tof": t_min * (1.0 + f), "transfer_method": tm, "ecc_of_minimum_energy_ellipse": ecc_min}
+            ctx.case(("tmin-chord", round(r1m, 6), round(r2m, 6), round(dnu, 9), f, k), nontrivial=True)
+            _arc_relation(sink, I, r1, r2, t_min * (1.0 + f), tm, I.mu, rp,
+                          f"(seeded chord {r1m:.0f} / {r2m:.0f} km, {math.degrees(dnu):.1f} deg, tof = t_min (1 {f:+.0e}), e_min = {ecc_min:.3f})",
+                          "-near-tmin", stats, TOL_TMIN_V1)
+    ctx.traces_validated += n
+    ctx.extra["arcs_at_and_near_tmin"] = n
+    ctx.extra["near_tmin_worst_error_over_allowed_pos_vel"] = stats["worst"]
 
 
 # --------------------------------------------------------------------------- radar inversion
@@ -212,10 +323,11 @@ def _site_state(I: Impl, rng: random.Random, when: datetime) -> np.ndarray:
     return np.asarray(I.methods.ecef2eci(I.methods.lla2ecef(lla), when), dtype=float)
 
 
-def _observe(I: Impl, when: datetime, jd: float, target, sensor, tid=40001, sid=50001):
-    """The REAL measurement model, noise free."""
+def _observe(I: Impl, when: datetime, jd: float, target, sensor, tid=40001, sid=50001, kind: str = "adv_radar"):
+    """The REAL measurement model, noise free (kind: a SensorLabel value; "optical" measures angles only)."""
     return I.Observation.fromMeasurement(epoch_jd=jd, target_id=tid, tgt_eci_state=np.asarray(target, float), sensor_id=sid,
-                                         sensor_eci=sensor, sensor_type="AdvRadar", measurement=I.meas, noisy=False)
+                                         sensor_eci=sensor, sensor_type=kind,
+                                         measurement=I.meas_optical if kind == "optical" else I.meas, noisy=False)
 
 
 def radar_inversion(ctx: Ctx, sink: Sink, I: Impl, rng: random.Random):
@@ -273,6 +385,7 @@ class IodBench:
         self.jd0 = float(I.dt2jd(START))
         self.epochs: set = set()
         self.k = 0
+        self.other = None
 
     def run(self, solver, x1, x2, tof_nominal: float, sensor_seed: random.Random):
         """Store the first observation, call determineNewEstimateState with the second one.
@@ -298,6 +411,143 @@ class IodBench:
         iod = I.LambertIOD(60, solver, self.sat, I.JulianDate(self.jd0))
         sol = iod.determineNewEstimateState([ob2], I.ScenarioTime(t1 - 30), I.ScenarioTime(t2))
         return sol, t2 - t1, (jd2 - jd1) * 86400.0
+
+
+    def _epoch(self, t: int):
+        I = self.I
+        jd = float(I.ScenarioTime(t).convertToJulianDate(I.JulianDate(self.jd0)))
+        when = START + timedelta(seconds=t)
+        if jd not in self.epochs:
+            self.epochs.add(jd)
+            self.db.insertData(self.Epoch(julian_date=jd, timestampISO=when.isoformat(timespec="microseconds")))
+        return jd, when
+
+    def run_track(self, solver, kinds: list, state_at, other_state_at, gap: int, sensor_seed: random.Random):
+        """Store one REAL observation row per entry of `kinds` (oldest first, `gap` seconds apart, the
+        newest `gap` seconds before the current one), then call determineNewEstimateState with the
+        current radar observation.  state_at(dt) is the target's true state dt seconds relative to
+        the current epoch.  Returns (solution, detection time, [seconds before current of each entry])."""
+        I = self.I
+        self.k += 1
+        self.sat += 1
+        self.db.insertData(self.AgentModel(unique_id=self.sat, name=f"target{self.k}"))
+        if self.other is None:
+            self.other = 39998
+            self.db.insertData(self.AgentModel(unique_id=self.other, name="other target"))
+        n = len(kinds)
+        t_cur = 36000 + 97 * (self.k % 500)
+        back = [(n - i) * gap for i in range(n)]                       # seconds before the current epoch
+        first_arc = next((i for i, k in enumerate(kinds) if k == "arc"), None)
+        last_before = max((i for i, k in enumerate(kinds) if k == "before"), default=None)
+        if first_arc is not None:
+            t_det = t_cur - back[first_arc] - 30
+        elif last_before is not None:
+            t_det = t_cur - back[last_before] + 30
+        else:
+            t_det = t_cur - back[0] - 30
+        for kind, b in zip(kinds, back):
+            jd, when = self._epoch(t_cur - b)
+            site = _site_state(I, sensor_seed, when)
+            if kind == "other":
+                ob = _observe(I, when, jd, other_state_at(-float(b)), site, self.other, self.sen, sensor_seed.choice(("radar", "adv_radar")))
+            elif kind == "optical":
+                ob = _observe(I, when, jd, state_at(-float(b)), site, self.sat, self.sen, "optical")
+            else:                                                        # "arc" / "before": radar, this target
+                ob = _observe(I, when, jd, state_at(-float(b)), site, self.sat, self.sen, sensor_seed.choice(("radar", "adv_radar")))
+            self.db.insertData(ob)
+        jd, when = self._epoch(t_cur)
+        cur = _observe(I, when, jd, state_at(0.0), _site_state(I, sensor_seed, when), self.sat, self.sen, "adv_radar")
+        iod = I.LambertIOD(60, solver, self.sat, I.JulianDate(self.jd0))
+        return iod.determineNewEstimateState([cur], I.ScenarioTime(t_det), I.ScenarioTime(t_cur)), t_det, back
+
+
+def iod_tracks(ctx: Ctx, sink: Sink, I: Impl, arcs: list, rng: random.Random, bench: "IodBench"):
+    """Every track of OrbitLatticeTrack.tla on a circular lattice orbit and on a seeded near-circular one."""
+    cfg = ("SPECIFICATION Spec\nCONSTANTS MaxStored = %d MaxEligible = 4 Pairing = \"%s\"\n"
+           "INVARIANT SameArc\nINVARIANT OnlyEligibleUsed\nINVARIANT ResultFixed\nINVARIANT BeforeIsPrefix\n")
+    res = O.tlc.require_ok(O.tlc.run_tlc("OrbitLatticeTrack", cfg % (4 if ctx.quick else 5, "same") + "INVARIANT EmitTrack\n",
+                                         ctx.sub("tracks"), workers=1, timeout=600, coverage=True), "OrbitLatticeTrack")
+    ctx.add_tlc(res, "OrbitLatticeTrack.tla exhaustive: tracks of stored observations, SameArc / OnlyEligibleUsed / ResultFixed")
+    if not res.ok:
+        raise O.tlc.MachineryError("OrbitLatticeTrack.tla fails at specification level:\n" + res.stdout[-2000:])
+    for act in ("Store", "Query", "Pair"):
+        if res.coverage.get(f"OrbitLatticeTrack!{act}", (0, 0))[1] == 0:
+            raise O.tlc.MachineryError(f"OrbitLatticeTrack.tla action {act} never taken")
+    mut = O.tlc.run_tlc("OrbitLatticeTrack", cfg % (4, "mixed"), ctx.sub("tracksmutant"), workers=1, timeout=600)
+    ctx.add_tlc(mut, 'spec mutant Pairing="mixed" (chord and transit time from different observations): SameArc must be refuted')
+    if not any(nm == "SameArc" for nm, _ in mut.invariant_violations):
+        raise O.tlc.MachineryError("spec mutant Pairing=mixed was not refuted by SameArc:\n" + mut.stdout[-1500:])
+    ctx.extra.setdefault("spec_mutants_killed", []).append("Pairing=mixed")
+    tracks = sorted(res.tagged("TRACK"), key=lambda t: (len(t["track"]), t["track"]))
+    if not tracks:
+        raise O.tlc.MachineryError("OrbitLatticeTrack.tla emitted no tracks")
+    circ = [a for a in arcs if a["e"][0] == 0 and a["kind"] == "q1"]
+    n = 0
+    worst = [0.0, 0.0]
+    for ti, tr in enumerate(tracks):
+        kinds = tr["track"]
+        for variant in ("lattice", "seeded"):
+            if variant == "lattice":
+                arc = circ[(7 * ti) % len(circ)]
+                S = O.Scaled(arc, (7000.0, 26560.0, 12000.0, 42164.0)[ti % (2 if ctx.quick else 4)], I.mu)
+                r0, v0, nmot, period = S.pos(arc["r1"]), S.vel(arc["v1"]), 1.0 / S.time_unit, S.period
+
+                def state_at(dt, r0=r0, v0=v0, nmot=nmot):              # exact rotation in the exact plane
+                    c, s = math.cos(nmot * dt), math.sin(nmot * dt)
+                    return np.concatenate([c * r0 + s * v0 / nmot, -s * nmot * r0 + c * v0])
+                rp = {"family": arc["fam"], "rot": arc["rot"], "q": arc["q"], "a_km": S.sma}
+            else:
+                sma, ecc = rng.uniform(6700.0, 42164.0), rng.choice((0.0, rng.uniform(0.0, 0.02)))
+                x0 = O.kep2cart(sma, ecc, math.acos(rng.uniform(-1, 1)), rng.uniform(0, O.TWOPI), rng.uniform(0, O.TWOPI),
+                                rng.uniform(0, O.TWOPI), I.mu)
+                period = O.TWOPI * math.sqrt(sma ** 3 / I.mu)
+
+                def state_at(dt, x0=x0, period=period):
+                    return O.propagate_elliptic(x0, dt + period, I.mu) if dt < 0 else O.propagate_elliptic(x0, dt, I.mu) if dt > 0 else x0
+                rp = {"sma": sma, "ecc": ecc, "x_current": x0.tolist()}
+            y0 = O.kep2cart(rng.uniform(7000.0, 30000.0), 0.01, rng.uniform(0.1, 3.0), rng.uniform(0, 6.0), 1.0, rng.uniform(0, 6.0), I.mu)
+
+            def other_state_at(dt, y0=y0):
+                return O.propagate_elliptic(y0, dt + 200000.0, I.mu)
+            # all stored observations lie within 36 % of a period before the current one, at least 61 s apart
+            gap = max(61, int(rng.uniform(0.15, 0.36) * period / len(kinds)))
+            name = ("universal", "battin")[(ti + (variant == "seeded")) % 2]
+            n += 1
+            ctx.case(("iod-track", tuple(kinds), variant, name, gap, ti), nontrivial=True,
+                     sample={"track": kinds, "expected": tr["expected"], "gap_s": gap, "solver": name} if n == 9 else None)
+            rp = dict(rp, track=kinds, gap_s=gap, period_s=period, solver=name, expected=tr["expected"])
+            try:
+                sol, t_det, back = bench.run_track(I.solvers[name], kinds, state_at, other_state_at, gap, rng)
+            except Exception as ex:  # noqa: BLE001
+                sink.fail(f"iod-track-exception-{type(ex).__name__}", f"LambertIOD raised {ex!r} on track {kinds}", rp)
+                continue
+            n_el = len(tr["eligible"])
+            rp = dict(rp, message=sol.message, seconds_before_current=back)
+            if tr["expected"] == "no-solution":
+                if sol.convergence or sol.state_vector is not None:
+                    sink.fail("iod-track-used-excluded-observation",
+                              f"LambertIOD returned a state although no radar observation of the target since the detection time is stored (track {kinds}): {sol.message!r}", rp)
+                continue
+            if not sol.convergence or sol.state_vector is None:
+                why = "not-single-pass" if "single pass" in (sol.message or "") else "other"
+                sink.fail(f"iod-no-solution-{why}", f"LambertIOD returned no state with {n_el} eligible stored observation(s), track {kinds}: {sol.message!r}", rp)
+                continue
+            x2 = state_at(0.0)
+            newest = min(b for b, k in zip(back, kinds) if k == "arc")
+            ep = float(np.linalg.norm(sol.state_vector[:3] - x2[:3]))
+            ev = float(np.linalg.norm(sol.state_vector[3:] - x2[3:]))
+            ev_allowed = np.linalg.norm(x2[3:]) * (3e-7 + 3.0 * 1e-4 / newest)     # Julian-date resolution 4e-5 s at either end
+            if ep > 1e-5 or ev > ev_allowed:
+                sink.fail(f"iod-track-wrong-state-{min(n_el, 2)}{'+' if n_el > 1 else ''}-eligible",
+                          f"LambertIOD ({name}) with {n_el} eligible stored observation(s) (track {kinds}) returns a state "
+                          f"{ep:.3g} km, {ev:.3g} km/s away from the orbit's state at the current observation (allowed 1e-5 km, {ev_allowed:.3g} km/s)",
+                          dict(rp, state=np.asarray(sol.state_vector).tolist(), truth=x2.tolist()))
+            else:
+                worst[0], worst[1] = max(worst[0], ep), max(worst[1], ev / np.linalg.norm(x2[3:]))
+    ctx.traces_validated += n
+    ctx.extra["iod_track_behaviours"] = n
+    ctx.extra["iod_tracks_from_spec"] = len(tracks)
+    ctx.extra["worst_iod_track_error_km_and_relative_velocity"] = worst
 
 
 def iod_checks(ctx: Ctx, sink: Sink, I: Impl, arcs: list, rng: random.Random):
@@ -338,7 +588,7 @@ def iod_checks(ctx: Ctx, sink: Sink, I: Impl, arcs: list, rng: random.Random):
     # lattice: circular family, every orientation, quarter-period arcs (dq = 1); the time of flight
     # is rounded to whole seconds (scenario times are), so the second state is re-derived by rotating
     # the exact first state in its exact plane by the exact angle n * tof
-    circ = [a for a in arcs if a["e"][0] == 0 and a["dq"] == 1]
+    circ = [a for a in arcs if a["e"][0] == 0 and a["kind"] == "q1"]
     sizes = (7000.0, 26560.0) if ctx.quick else (6700.0, 7000.0, 12000.0, 26560.0, 42164.0, 50000.0)
     for arc in circ:
         for a_km in sizes:
@@ -373,6 +623,7 @@ def iod_checks(ctx: Ctx, sink: Sink, I: Impl, arcs: list, rng: random.Random):
     ctx.traces_validated += n
     ctx.extra["iod_cases"] = n
     ctx.extra["worst_iod_error_km_and_relative_velocity"] = worst
+    iod_tracks(ctx, sink, I, arcs, rng, bench)
 
 
 def run(ctx: Ctx):
@@ -383,7 +634,9 @@ def run(ctx: Ctx):
                 "{90 deg short way, 270 deg long way}) at 2-4 sizes and unscaled, both solvers; seeded arcs: a 6600-50000 km, "
                 "e <= 0.7, all inclinations, transfer angle in [5,175] u [185,355] deg; radar: random ground sites (poles, date line, "
                 "equator) and spacecraft sensors x targets overhead / anywhere; IOD: circular lattice orbits (quarter period) and "
-                "seeded orbits with e <= 0.02 spaced 2-40 % of a period, through a real in-memory database; every case non-trivial "
+                "seeded orbits with e <= 0.02 spaced 2-40 % of a period, through a real in-memory database; every track of OrbitLatticeTrack.tla "
+                "(<= 4/5 stored observations of kinds arc/before/other/optical) on a lattice and a seeded orbit; minimum-energy arcs at t_min and "
+                "t_min(1 +- 1e-12..1e-6), lattice and seeded chords; every case non-trivial "
                 "(a solver iteration / a full inversion); distinct by the abstract input tuple")
     ctx.assumptions = [
         "lattice oracle exact (TLC rationals); floats enter through math.pi, math.acos(e), one division per rational and the documented scaling",
@@ -392,6 +645,13 @@ def run(ctx: Ctx):
         f"first-order image of a {TOL_ARC_V1} relative error of the returned v1 (sensitivity by finite differences through the same propagator; "
         "Battin's iteration tolerance 1.48e-8 is in its own variable); an independent elliptic propagator replaces the repository's only if it raises (counted)",
         "the solvers are told the true sense: +1 for transfer angles below 180 deg, -1 above",
+        f"minimum-energy arcs (time of flight = Lambert's t_min, exact from the spec): universal {TOL_LATTICE}, Battin {TOL_TMIN_BATTIN} relative "
+        "(2 asin sqrt(s/2a) sits at pi where asin(sqrt(.)) resolves sqrt(eps); worst measured 9.7e-8); at t_min (1 +- 1e-12 .. 1e-6) and on seeded "
+        f"chords at t_min: relation with an admissible v1 error of {TOL_TMIN_V1} (worst implied 6e-7, Battin); a non-finite velocity never passes; "
+        "seeded chords whose minimum-energy ellipse has e > 0.7 are outside the quantifier and skipped",
+        "IOD tracks: stored observations are evenly spaced (>= 61 s), all within 36 % of a period before the current one; eligible = radar observation of the "
+        "target at/after the detection time (the documented query); which eligible one the implementation pairs is its choice, the result is fixed; "
+        "velocity tolerance |v| (3e-7 + 3e-4 s / spacing) for the Julian-date resolution",
         f"radar inversion to {TOL_RADAR_KM} km + {TOL_RADAR_REL} x range (worst measured 1.3e-9 x range); epochs are whole seconds, converted with datetimeToJulianDate",
         "IOD: observation spacing is a whole number of seconds >= 61; the velocity tolerance allows for the 4e-5 s resolution of Julian dates "
         "(|v| (1e-7 + 3 (|dt_jd - dt| + 5e-5 s)/dt)); position 1e-5 km; truth at the second epoch from the exact rotation (lattice) or an independent elliptic propagator (seeded)",
@@ -406,6 +666,7 @@ def run(ctx: Ctx):
     sink = Sink(ctx)
     replay_arcs(ctx, sink, impl, arcs)
     seeded_arcs(ctx, sink, impl, rng)
+    tmin_neighbourhood(ctx, sink, impl, arcs, rng)
     radar_inversion(ctx, sink, impl, rng)
     iod_checks(ctx, sink, impl, arcs, rng)
     ctx.extra["violation_counts"] = dict(sorted(sink.count.items()))
